@@ -24,12 +24,12 @@ Proof. exact spec_wild_no_sep. Qed.
 Print Assumptions C02_spec_wildcards_never_match_sep.
 
 (* ---- flat path patterns, end to end ------------------------------------------------------------------------------------
-   Segments of literals, escaped characters, `?` and single `*`, joined by `/` (relative, no `**`), path mode under Unix
+   Segments of literals, escaped characters, `?`, single `*` and simple brackets `[abc]`/`[!abc]`, joined by `/` (relative, no `**`), path mode under Unix
    rules without NODOTDIR/REALPATH/MATCHBASE/EXTMATCH, GLOBSTAR and DOTMATCH on or off, str/bytes.  The parser model's text is
    the printed form of a regular expression [r]; under the formal semantics C02Path.X of that regex fragment, [r] fully
    matches a name without line feeds exactly when the name splits into one separator-free piece per pattern segment,
    the pieces separated by non-empty runs of `/` and followed by any run of `/`, and each piece matches its segment
-   (C02Path.DenSeg).  In particular neither `?` nor `*` ever matches the separator. *)
+   (C02Path.DenSeg).  In particular neither `?`, `*` nor a bracket - not even a negated one - ever matches the separator. *)
 From WC Require FlagFuns.
 From WC.Proofs Require C01Flat C02Path.
 
